@@ -9,6 +9,9 @@ Main results
   the statement is skip the level says integrity = enforce (and nothing else about integrity).
 * `scopes_unique_of_valid`   : (for C08) valid OCI document: no scope twice, one wildcard statement
   at most, the wildcard alone in its statement.
+* `newVerifier_iff`          : the constructor route (NewVerifierWithOptions and the deprecated New /
+  NewWithOptions, which call it): a verifier is built iff there is a trust store, at least one
+  document, and EVERY document given - OCI and blob - is well-formed.
 * `model_holds`              : the clauses of `Holds` are true of the model's observation, all inputs.
 * pins: `constants_pinned`, `domainRx_pinned`, `repositoryRx_pinned`, `fileNameRx_pinned`, table facts.
 * readable meaning of the leaf predicates: `storeOk_iff`, `isValidFileName_iff`, `isSubsetDN_iff`,
@@ -1136,6 +1139,56 @@ theorem scopes_unique_of_valid (d : Doc) (h : validate .oci d = .ok ()) :
     | nil => simp at hmem; rw [hmem]
     | cons y ys => simp at hl
 
+/-! ### the verifier constructors -/
+
+theorem optWF_iff (k : Kind) (o : Option Doc) : optWF k o = true ↔ ∀ d, o = some d → WellFormed k d := by
+  cases o with
+  | none => simp [optWF]
+  | some d => simp [optWF]
+
+@[simp] theorem optWF_none (k : Kind) : optWF k none = true := rfl
+@[simp] theorem optWF_some (k : Kind) (d : Doc) : optWF k (some d) = decide (WellFormed k d) := rfl
+
+theorem isOk_validateOpt (k : Kind) (o : Option Doc) : isOk (validateOpt k o) = optWF k o := by
+  cases o with
+  | none => rfl
+  | some d => exact isOk_validate k d
+
+theorem isOk_newVerifier (storeNil : Bool) (oci blob : Option Doc) :
+    isOk (newVerifier storeNil oci blob) =
+      (!storeNil && (oci.isSome || blob.isSome) && optWF .oci oci && optWF .blob blob) := by
+  unfold newVerifier
+  cases storeNil with
+  | true => simp [isOk]
+  | false =>
+    simp only [Bool.false_eq_true, if_false, Bool.not_false, Bool.true_and]
+    rw [← isOk_validateOpt, ← isOk_validateOpt]
+    cases oci with
+    | none =>
+      cases blob with
+      | none => simp [isOk, validateOpt]
+      | some b => simp [isOk, validateOpt]
+    | some a =>
+      simp only [Option.isNone_some, Bool.false_and, Bool.false_eq_true, if_false, Option.isSome_some,
+        Bool.true_or, Bool.true_and]
+      cases validateOpt .oci (some a) with
+      | error e => simp [isOk]
+      | ok u => simp [isOk]
+
+/-- **the constructor route.** `verifier.NewVerifierWithOptions` (and the deprecated constructors
+that call it) yields a verifier iff there is a trust store, at least one document, and every
+document that is given - the OCI one and the blob one - is well-formed. -/
+theorem newVerifier_iff (storeNil : Bool) (oci blob : Option Doc) :
+    newVerifier storeNil oci blob = .ok () ↔
+      storeNil = false ∧ (oci.isSome = true ∨ blob.isSome = true) ∧
+      (∀ d, oci = some d → WellFormed .oci d) ∧ (∀ d, blob = some d → WellFormed .blob d) := by
+  rw [← isOk_iff, isOk_newVerifier, ← optWF_iff, ← optWF_iff]
+  cases storeNil <;> simp [and_assoc]
+
+/-- without any document no verifier is constructed -/
+theorem ctorGuard_refuses : isOk ctorGuard = false := by
+  simp [ctorGuard, isOk_newVerifier]
+
 /-! ### the observation: sorting does not change what the map says about integrity -/
 
 theorem any_insertKV (p : KV → Bool) (a : KV) : ∀ l : List KV, (insertKV a l).any p = (p a || l.any p) := by
@@ -1201,14 +1254,31 @@ theorem zip_map_all {α β : Type} (f : α → β) (g : α × β → Bool) : ∀
   | nil => rfl
   | cons h t ih => simp [ih]
 
+theorem ctor_alone (k : Kind) (d : Doc) :
+    isOk (newVerifier false (ctorArgs k d none).1 (ctorArgs k d none).2) = decide (WellFormed k d) := by
+  cases k <;> simp [ctorArgs, isOk_newVerifier]
+
+theorem ctor_pair (k : Kind) (d : Doc) (other : Option Doc) :
+    isOk (newVerifier false (ctorArgs k d other).1 (ctorArgs k d other).2) =
+      (decide (WellFormed k d) && optWF k.other other) := by
+  cases k with
+  | oci => simp [ctorArgs, isOk_newVerifier, Kind.other]
+  | blob =>
+    simp only [ctorArgs, isOk_newVerifier, optWF_some, Kind.other, Bool.not_false, Option.isSome_some,
+      Bool.or_true, Bool.and_self, Bool.true_and]
+    exact Bool.and_comm _ _
+
 /-- **the model satisfies the property**, for every input -/
 theorem model_holds (i : Input) : Holds i (run i) = true := by
   unfold Holds clauses run
   cases hk : kindOf i.kind with
-  | none => simp [Clauses.holds]
+  | none =>
+    by_cases hc : i.kind = "ctor"
+    · simp [Clauses.holds, hc, ctorGuard_refuses]
+    · simp [Clauses.holds, hc]
   | some k =>
     simp only [Clauses.holds_cons, Clauses.holds_nil, Bool.and_true, isOk_validate, beq_self_eq_true,
-      Bool.true_and]
+      Bool.true_and, ctor_pair, optWF_none]
     by_cases hw : WellFormed k i.doc
     · have hv := (validate_iff_wellformed k i.doc).2 hw
       simp only [hw, decide_true, Bool.not_true, Bool.false_or, if_true, levelsOf, List.length_map,
@@ -1426,13 +1496,25 @@ example : isOk (validate .oci { sampleDoc with statements :=
 example : isOk (validate .oci { sampleDoc with statements :=
     [{ sampleStmt with identities := sampleStmt.identities ++ sampleStmt.identities }] }) = false := by decide
 
-def sampleInput : Input := { kind := "oci", doc := sampleDoc, rx := "", text := [] }
+def badBlob : Doc := { sampleDoc with statements := [sampleStmt, { sampleSkip with isGlobal := true }] }
+def sampleInput : Input := { kind := "oci", doc := sampleDoc, other := some badBlob, rx := "", text := [] }
 
 example : Holds sampleInput (run sampleInput) = true := model_holds _
 example : (run sampleInput).okStruct = true := by decide
 /-- `Holds` is false of an implementation that rejects the well-formed document … -/
-example : Holds sampleInput { okStruct := false, okJson := false, okVerifier := false, levels := [] } = false := by
+example : Holds sampleInput
+    { okStruct := false, okRepeat := [false, false, false], okJson := false, okVerifier := false,
+      okPair := false, okNew := false, okNewWithOptions := false, levels := [] } = false := by
   decide
+/-- the well-formed OCI document is refused next to an ill-formed blob document (global skip) … -/
+example : (run sampleInput).okVerifier = true ∧ (run sampleInput).okPair = false := by decide
+/-- … and `Holds` is false of a constructor that looks at the first document only -/
+example : Holds sampleInput { (run sampleInput) with okPair := true } = false := by decide
+/-- … or of a Validate() that remembers an earlier answer for the same object -/
+example : Holds sampleInput { (run sampleInput) with okRepeat := [true, true, false] } = false := by decide
+/-- no document: no verifier -/
+example : Holds { sampleInput with kind := "ctor", rx := "no-documents" }
+    { (run sampleInput) with okVerifier := true } = false := by decide
 /-- … and of one that accepts it but lets the strict statement log integrity failures -/
 example : Holds sampleInput { (run sampleInput) with
     levels := [[⟨"authenticTimestamp", "enforce"⟩, ⟨"authenticity", "enforce"⟩, ⟨"expiry", "enforce"⟩,
